@@ -737,6 +737,11 @@ class IteratorQueue(IterableQueue[_ValueT]):
         _release_and_notify(
             self._states_lock, notify=self._dequeue_lock, notify_all=True
         )
+        # Producers blocked on a full queue also have to observe enqueue_done,
+        # otherwise they wait forever after another producer failed.
+        _release_and_notify(
+            self._states_lock, notify=self._enqueue_lock, notify_all=True
+        )
         logging.debug(
             'chainable: %s', f'"{self.name}" enqueue done, notify all'
         )
